@@ -133,6 +133,16 @@ namespace {
             suppr_str += ";";
             suppr_str += std::to_string(suppr.hash);
             suppr_str += ";";
+            suppr_str += std::to_string(static_cast<int>(suppr.type));
+            suppr_str += ";";
+            suppr_str += std::to_string(suppr.lineBegin);
+            suppr_str += ";";
+            suppr_str += std::to_string(suppr.lineEnd);
+            suppr_str += ";";
+            suppr_str += suppr.thisAndNextLine ? "1" : "0";
+            suppr_str += ";";
+            suppr_str += suppr.macroName;
+            suppr_str += ";";
             suppr_str += suppr.extraComment;
             return suppr_str;
         }
@@ -265,7 +275,7 @@ bool ProcessExecutor::handleRead(int rpipe, unsigned int &result, const std::str
         if (!buf.empty()) {
             // TODO: avoid string splitting
             auto parts = splitString(buf, ';');
-            if (parts.size() < 6)
+            if (parts.size() < 11)
             {
                 // TODO: make this non-fatal
                 std::cerr << "#### ThreadExecutor::handleRead(" << filename << ") adding of inline suppression failed - insufficient data" << std::endl;
@@ -277,8 +287,13 @@ bool ProcessExecutor::handleRead(int rpipe, unsigned int &result, const std::str
             suppr.checked = parts[2] == "1";
             suppr.matched = parts[3] == "1";
             suppr.hash = strToInt<std::size_t>(parts[4]);
-            suppr.extraComment = parts[5];
-            for (std::size_t i = 6; i < parts.size(); i++) {
+            suppr.type = static_cast<SuppressionList::Type>(strToInt<int>(parts[5]));
+            suppr.lineBegin = strToInt<int>(parts[6]);
+            suppr.lineEnd = strToInt<int>(parts[7]);
+            suppr.thisAndNextLine = parts[8] == "1";
+            suppr.macroName = parts[9];
+            suppr.extraComment = parts[10];
+            for (std::size_t i = 11; i < parts.size(); i++) {
                 suppr.extraComment += ";" + parts[i];
             }
             const std::string err = mSuppressions.nomsg.addSuppression(suppr);
